@@ -110,7 +110,8 @@ def validate(module, cfg_consts, traces, modules=None, shards=None, timeout=1800
         jobs.append((cwd, module, cfg, path, timeout))
     verdicts = [Verdict(i, traces[i]) for i in range(len(traces))]
     states = 0
-    with concurrent.futures.ThreadPoolExecutor(max_workers=common.NCPU) as ex:
+    # (at most eight validating JVMs of 3g side by side: sixteen ran a 62 GB machine out of memory next to other checks)
+    with concurrent.futures.ThreadPoolExecutor(max_workers=min(common.NCPU, 8)) as ex:
         results = list(ex.map(_run_shard, jobs))
     for (b, idxs), r in zip([(b, i) for b, i in enumerate(buckets) if i], results):
         errs = r.errors()
